@@ -4,7 +4,6 @@ import (
 	"encoding/json"
 	"fmt"
 	"iter"
-	"math"
 	"slices"
 	"sort"
 	"strconv"
@@ -223,7 +222,12 @@ func (i pyInt) Operator(operator Operator, operand pyObject) pyObject {
 		case Divide:
 			return i / o
 		case FloorDivide:
-			return newPyInt(int(math.Floor(float64(i) / float64(o))))
+			// Python semantics: round towards negative infinity (Go's / truncates towards zero)
+			q := i / o
+			if (i%o != 0) && ((i < 0) != (o < 0)) {
+				q--
+			}
+			return newPyInt(int(q))
 		case LessThan:
 			return newPyBool(i < o)
 		case GreaterThan:
@@ -233,7 +237,12 @@ func (i pyInt) Operator(operator Operator, operand pyObject) pyObject {
 		case GreaterThanOrEqual:
 			return newPyBool(i >= o)
 		case Modulo:
-			return i % o
+			// Python semantics: the result has the sign of the divisor (Go's % takes that of the dividend)
+			m := i % o
+			if m != 0 && ((m < 0) != (o < 0)) {
+				m += o
+			}
+			return m
 		case In:
 			panic("bad operator: 'in' int")
 		}
